@@ -58,6 +58,8 @@ def case_strategy(draw, tier):
         pel['uh']['flags'] |= 0x4000        # hidden: not selected by default
     mode = draw(st.sampled_from(['json', 'json', 'json-o', 'file', 'file', 'file-x']))
     return {'state': state, 'pel': pel, 'data': data, 'mode': mode,
+            # a (truncated) output file left behind by an earlier, failed run
+            'stale_output': draw(st.sampled_from([None, None, b'', b'{\n    "Private Header": {\n'])),
             'sample_actions': draw(st.lists(st.sampled_from(ACTIONS), min_size=2, max_size=2, unique=True))}
 
 
@@ -84,6 +86,9 @@ def run_once(case, blob, fault=None):
             argv, outdir = ['-f', path, '-c'], None
         else:
             argv, outdir = ['-f', path, '-c', '-x'], None
+        if case.get('stale_output') is not None and outdir and case['pel'] is not None:
+            with open(os.path.join(outdir, 'pel00.%08X.json' % case['pel']['ph']['eid']), 'wb') as f:
+                f.write(case['stale_output'])
         logp = os.path.join(top, 'events.log')
         logfd = os.open(logp, os.O_WRONLY | os.O_CREAT | os.O_APPEND, 0o600)
 
@@ -122,7 +127,8 @@ def check_invariant(case, res, base, what):
                         % (what, 'cannot be decoded' if case['state'] == 'undecodable' else 'was filtered out'),
                         sig='C12.removed:%s:%s' % (mode.split('-')[0], case['state']))
     if mode.startswith('json'):
-        if res['outs'] != base['outs'] or not base['outs']:
+        complete = base.get('complete_outs', base['outs'])
+        if res['outs'] != complete or not complete:
             raise Violation('C12.removed-without-output',
                             '%s: the input file was removed but the JSON output is %s (events: %s)'
                             % (what, 'missing' if not res['outs'] else 'incomplete (%d of %d bytes)'
@@ -152,8 +158,13 @@ def fault_points(case, note):
         elif o.exc is None and not o.text and blob[0:2] == b'PH' and blob[48:50] == b'UH':
             case = dict(case, state='filtered')
     what0 = 'peltool %s (%s PEL)' % (case['mode'], case['state'])
+    clean_case = dict(case, stale_output=None)
+    ref = run_once(clean_case, blob)
     base = run_once(case, blob)
+    base['complete_outs'] = ref['outs']
     check_invariant(case, base, base, what0 + ', no fault')
+    if case.get('stale_output') is not None:
+        note.label('stale-output-file')
     faultable = [e for e in base['events'] if e[0] != 'remove']
     n = len(faultable)
     runs = 1
